@@ -36,6 +36,15 @@ def install(I):
     t["math.isclose"] = b_isclose
     t["math.pi"] = None
     t["numpy.format_float_positional"] = b_format_float
+    t["numpy.eye"] = n_eye
+    t["numpy.identity"] = n_eye
+    t["numpy.array"] = n_array
+    t["numpy.asarray"] = n_array
+    t["numpy.matmul"] = n_matmul
+    t["numpy.dot"] = n_matmul
+    t["numpy.linalg.multi_dot"] = n_multi_dot
+    t["scipy.linalg.inv"] = n_inv
+    t["numpy.linalg.inv"] = n_inv
     t["DefaultFormatter.number"] = f_number
     t["DefaultFormatter.parameters"] = f_parameters
     t["ParamsDict"] = c_paramsdict
@@ -731,6 +740,42 @@ def b_format_float(I, fv, args, kwargs, node):
     return I.mkstr([NumFmt(args[0])])
 
 
+# ------------------------------------------------------------------ matrices
+def n_eye(I, fv, args, kwargs, node):
+    n = I.const_int(args[0]) if args else None
+    return I.alloc(AMat(I.fresh(f"eye{n if n is not None else ''}")))
+
+
+def n_array(I, fv, args, kwargs, node):
+    items = _list_items(I, args[0]) if args else None
+    if items is not None:
+        return ArrV(tuple(items))
+    return Unk(f"array({I.tag(args[0]) if args else ''})", "array")
+
+
+def n_matmul(I, fv, args, kwargs, node):
+    out = ()
+    for a in args[:2]:
+        a = I.force(a)
+        out += a.factors if isinstance(a, MatProd) else (a,)
+    return MatProd(out)
+
+
+def n_multi_dot(I, fv, args, kwargs, node):
+    items = _list_items(I, args[0]) if args else None
+    if items is None:
+        return Unk(f"multi_dot({I.tag(args[0]) if args else ''})", "array")
+    out = ()
+    for a in items:
+        a = I.force(a)
+        out += a.factors if isinstance(a, MatProd) else (a,)
+    return MatProd(out)
+
+
+def n_inv(I, fv, args, kwargs, node):
+    return Unk(f"inv({I.tag(I.force(args[0]))})", "array")
+
+
 # ------------------------------------------------------------------ formatter contract
 class pseudo_frame:
     def __init__(self, I, qualname, module="gscrib.formatters.default_formatter"):
@@ -889,6 +934,14 @@ def call_bound_builtin(I, bb: BoundBuiltin, args, kwargs, node):
             return NT(recv.cls, recv.names, tuple(kw.get(n, v) for n, v in zip(recv.names, recv.items)))
         if name == "_asdict" and isinstance(recv, NT):
             return I.alloc(ADict(entries=dict(zip(recv.names, recv.items))))
+    if isinstance(recv, (MatProd, ArrV)):
+        if name in ("copy", "astype", "view"):
+            return recv
+        return Unk(f"{I.tag(recv)}.{name}()", "array")
+    if isinstance(recv, Ref) and isinstance(I.deref(recv), AMat):
+        if name == "copy":
+            return I.alloc(I.deref(recv).clone())
+        return Unk(f"{I.tag(recv)}.{name}()", "array")
     if isinstance(recv, Num):
         if name == "is_integer":
             return Const(I.decide(f"is_integer:{recv.p.key()}", [True, False]))
